@@ -25,11 +25,16 @@ pub enum Outcome {
 pub struct SMem {
     pub pre: Vec<(u32, u8)>,
     pub writes: Vec<(u32, u8)>,
+    /// dense 1 MiB image (whole-program runs); when present, pre/writes are not used
+    pub dense: Option<Vec<u8>>,
 }
 
 impl SMem {
     pub fn rd(&self, a: u32) -> u8 {
         let a = a & 0xFFFFF;
+        if let Some(d) = &self.dense {
+            return d[a as usize];
+        }
         for (x, v) in self.writes.iter().rev() {
             if *x == a {
                 return *v;
@@ -43,6 +48,10 @@ impl SMem {
         bg(a as usize)
     }
     pub fn wr(&mut self, a: u32, v: u8) {
+        if let Some(d) = &mut self.dense {
+            d[(a & 0xFFFFF) as usize] = v;
+            return;
+        }
         self.writes.push((a & 0xFFFFF, v));
     }
     pub fn rd16(&self, a: u32) -> u16 {
